@@ -96,6 +96,15 @@ fn wf_vector(v: &[Trans], nstates: usize) -> Result<(), String> {
     if !(sum <= 1.0 + v.len() as f64 * 2f64.powi(-24)) {
         return Err(format!("probabilities sum to {sum}"));
     }
+    // the sum as the sampler forms it: single precision, in the listed order (its cumulative thresholds
+    // must not pass 1)
+    let mut s32 = 0.0f32;
+    for t in v {
+        s32 += t.1;
+    }
+    if !(s32 <= 1.0) {
+        return Err(format!("probabilities accumulate to {s32} in single precision in the listed order (exact sum {sum})"));
+    }
     Ok(())
 }
 
@@ -562,6 +571,27 @@ fn random_candidate(r: &mut Xo) -> Candidate {
         };
         let (a, c) = place_dist(r.below(PLACES as u64) as usize, d);
         let mut tv = vec![];
+        if r.chance(1, 8) {
+            // probabilities that add up to 1 give or take a few units in the last place, in an arbitrary
+            // order of targets: on which side of 1 the sum falls depends on how it is accumulated
+            let k = r.range(3, 5) as usize;
+            let mut ps: Vec<f32> = (0..k - 1).map(|_| ((r.range(1, 99) as f32) / 100.0) / (k as f32 - 1.0) * *r.pick(&[1.0f32, 0.97, 0.9])).collect();
+            let rest = 1.0f64 - ps.iter().map(|p| *p as f64).sum::<f64>();
+            let last = rest as f32;
+            let nudge = *r.pick(&[-1i32, 0, 0, 1, 1, 2]);
+            ps.push(f32::from_bits((last.to_bits() as i64 + nudge as i64) as u32));
+            let mut targets: Vec<usize> = vec![0, 1, 2, STATE_END, STATE_SIGNAL];
+            for i in (1..targets.len()).rev() {
+                let j = r.below(i as u64 + 1) as usize;
+                targets.swap(i, j);
+            }
+            for i in (1..ps.len()).rev() {
+                let j = r.below(i as u64 + 1) as usize;
+                ps.swap(i, j);
+            }
+            let v: Vec<Trans> = ps.iter().zip(targets.iter()).map(|(p, t)| Trans(*t, *p)).collect();
+            tv.push((*r.pick(&ALL_EVENTS), v));
+        }
         for _ in 0..r.range(0, 3) {
             let e = *r.pick(&ALL_EVENTS);
             let k = r.range(1, 3);
